@@ -1,12 +1,15 @@
 (* C08 - connection behaviour is independent of segmentation and completion timing.
-   PARTIAL.  Proved: the byte-level reader (Conn/Reader.v, the framing of receive_packet)
-   produces the same frames however the client's byte stream is segmented, and the
-   frame-level semantics M1 is applied to the reader's output.  Not proved (no operational
-   byte-level model of select!-cancellation was built): that the handler's behaviour equals
-   M1-on-reader-output when a keep-alive tick or a raced adapter completion falls strictly
-   inside the arrival of a frame; those schedules are the recorded known classes K1 / K4,
-   decided per schedule by evaluation (Run/CaseConn.v cancel_class). *)
-From Passage Require Import Lib.Bytes Codec.VarInt Conn.Types Conn.Sem1 Conn.Reader Conn.ReaderProofs.
+   The full statement - for every schedule the byte-level behaviour (M2, Conn/Sem2.v: the
+   model of receive_packet's two phases under tokio's select!) equals the frame-level
+   behaviour M1 applied to the reader's output - is FALSE of the faithful model and of the
+   code: C08_refinement_refuted, with the witnesses of the known classes K1 (a raced adapter
+   call completes inside a frame) and K4 (a keep-alive tick falls due inside a frame).
+   Proved: the byte-level reader (Conn/Reader.v, the framing of receive_packet) produces the
+   same frames however the client's byte stream is segmented; and every M2 trace, on every
+   schedule (the disturbed ones included), satisfies the monitors of C01/C02/C03/C06/C10
+   and never ends in a panic (Props/C01.v ... C10.v, C04.v: the *_bytes theorems). *)
+From Passage Require Import Lib.Bytes Codec.VarInt Conn.Types Conn.Prog Conn.Sem1 Conn.Sem2 Conn.Reader Conn.ReaderProofs
+  Conn.Sem2Witness.
 
 (* feeding the reader piecewise is feeding it the concatenation *)
 Theorem C08_reader_monoid : forall max a st b,
@@ -27,5 +30,45 @@ Example C08_each_frame_once :
   = [EvFrame 0 [170; 187]; EvFrame 5 [127]].
 Proof. vm_compute. reflexivity. Qed.
 
+(* ---- the known classes, as closed terms ---- *)
+
+(* K1: the same bytes; delivered whole the client is transferred, delivered as 5 + 5 bytes
+   around the instant discovery completes the connection ends with an illegal frame length *)
+Theorem C08_K1_witness :
+  concat (map (fun x => match snd x with Some b => b | None => [] end) k1_whole)
+  = concat (map (fun x => match snd x with Some b => b | None => [] end) k1_split)
+  /\ last_end (run2 w_o w_cfg w_e k1_whole) = Some OOk
+  /\ last_end (run2 w_o w_cfg w_e k1_split) = Some (OErr KIllegalLen)
+  /\ last_end (run1 w_o w_cfg w_e (frames_of (cf_max_len w_cfg) k1_split)) = Some OOk.
+Proof. vm_compute. repeat split; reflexivity. Qed.
+
+(* K4, deferral: after a frame header declaring 10000 bytes the handler sends no Keep Alive
+   and never times the client out, where the frame-level behaviour is Keep Alive + timeout *)
+Theorem C08_K4_deferral_witness :
+  last_end (run2 w_o w_cfg w_e k4_header) = Some OHang
+  /\ sent_ids (run2 w_o w_cfg w_e k4_header) = [5; 1; 2]
+  /\ last_end (run1 w_o w_cfg w_e (frames_of (cf_max_len w_cfg) k4_header)) = Some (OErr KMissedKA)
+  /\ sent_ids (run1 w_o w_cfg w_e (frames_of (cf_max_len w_cfg) k4_header)) = [5; 1; 2; 4; 2].
+Proof. vm_compute. repeat split; reflexivity. Qed.
+
+(* K4, length prefix: a tick between the two bytes of a length prefix discards the first *)
+Theorem C08_K4_prefix_witness :
+  sent_ids (run2 w_o w_cfg w_e k4_prefix_whole) = [0]
+  /\ sent_ids (run2 w_o w_cfg w_e k4_prefix_split) = []
+  /\ sent_ids (run1 w_o w_cfg w_e (frames_of (cf_max_len w_cfg) k4_prefix_split)) = [0].
+Proof. vm_compute. repeat split; reflexivity. Qed.
+
+Theorem C08_refinement_refuted :
+  ~ (forall o cfg e segs, last_end (run2 o cfg e segs) = last_end (run1 o cfg e (frames_of (cf_max_len cfg) segs))).
+Proof.
+  intros H.
+  destruct C08_K1_witness as (_ & _ & H2 & H1).
+  pose proof (eq_trans (eq_sym H2) (eq_trans (H w_o w_cfg w_e k1_split) H1)) as E. discriminate E.
+Qed.
+
 Print Assumptions C08_reader_monoid.
 Print Assumptions C08_segmentation_independent.
+Print Assumptions C08_K1_witness.
+Print Assumptions C08_K4_deferral_witness.
+Print Assumptions C08_K4_prefix_witness.
+Print Assumptions C08_refinement_refuted.
